@@ -601,6 +601,13 @@ class Trackers(collections.abc.MutableSequence):
         if self._callback is not None:
             self._callback(self)
 
+    def reverse(self):
+        # Swapping tiers one by one does nothing because all their URLs are
+        # already known
+        self._tiers.reverse()
+        if self._callback is not None:
+            self._callback(self)
+
     def __len__(self):
         return len(self._tiers)
 
